@@ -165,6 +165,27 @@ def run_planck(W, cfg):
                 if a.shape != b.shape or not _np.all(_np.abs(a[ok] - b[ok]) <= 1e-12 * _np.abs(b[ok])):
                     return False
         return True
+    def spelling_ok():
+        # unit names are case-insensitive wherever they are accepted (Unit(), Spectrum, planck_exitance): the same numbers for any
+        # spelling, and a flux unit that does not exist is refused rather than silently answered in another unit
+        import numpy as _np
+        Rr = W.lentil.radiometry
+        grid = _np.array([0.7, 0.9, 1.4]) * 1e-6 / float(TO_M[wu])
+        for fn in (Rr.planck_radiance, Rr.planck_exitance):
+            ref = _np.asarray(fn(grid, 3000.0, waveunit=wu, valueunit=vu), dtype=float)
+            for sp in (vu.upper(), vu.capitalize(), vu[0] + vu[1:].upper()):
+                got = _np.asarray(fn(grid, 3000.0, waveunit=wu, valueunit=sp), dtype=float)
+                if got.shape != ref.shape or not _np.allclose(got, ref, rtol=1e-12, atol=0):
+                    return False
+            try:
+                fn(grid, 3000.0, waveunit=wu, valueunit='jansky')
+                return False
+            except (ValueError, KeyError, TypeError):
+                pass
+        b1 = Rr.Blackbody(grid, 3000.0, waveunit=wu, valueunit=vu.capitalize())
+        b2 = Rr.Blackbody(grid, 3000.0, waveunit=wu, valueunit=vu)
+        return bool(_np.allclose(_np.asarray(b1.value, dtype=float), _np.asarray(b2.value, dtype=float), rtol=1e-12, atol=0))
+    W.ob_concrete('flux-unit names in any letter case give the same radiance, exitance and Blackbody; an unknown flux unit is refused', spelling_ok)
     if wu != 'm':            # (integers of metres are not wavelengths anyone holds; in metres the unit factor is the integer 1)
         W.ob_concrete('wavelengths held as integers (beyond 2^63 ** (1/5)) give the same radiance and exitance as the same wavelengths held as floats', int_grid_ok)
     # the exponent hc/(lambda k T) within the range of double-precision exp (lambda*T > 1e-4 m K, i.e. exponent < 144): also what makes
